@@ -1,5 +1,6 @@
 import YardlProofs.Imports
 import YardlProofs.Namespaces
+import YardlProofs.Resolve
 import YardlGenerated.Tables
 
 /-!
@@ -113,5 +114,46 @@ example :
     let refs : Nat → List Nat := fun n => if n = 0 then [1, 2] else if n = 2 then [1] else []
     Namespaces.flatten refs 5 0 [] = [1, 2, 0] := by decide
 
+
+/-! ### which namespaces a package can refer to (`YardlModel/Resolve.lean`) -/
+
+/-- a type name resolves only into the package itself or into a package it imports, directly or through its imports — and only to a
+    definition that exists; in particular not into a package that merely happens to be loaded because somebody else imports it
+    (the defect fixed in 3dc19f7: the world `App → [B, C]` with `B` using `C.T`) -/
+theorem names_resolve_into_imported_packages_only (refs : Nat → List Nat) (defs : List (Nat × Nat)) (fuel cur : Nat) (nm : Resolve.Name) (m t : Nat)
+    (h : Resolve.resolve defs (Resolve.visible refs fuel cur) cur nm = some (m, t)) :
+    (m = cur ∨ Resolve.Reach refs cur m) ∧ (m, t) ∈ defs :=
+  Resolve.resolve_sound refs defs fuel cur nm m t h
+
+/-- the types of an imported package are usable under their namespace from every package that imports it -/
+theorem imported_types_are_usable (refs : Nat → List Nat) (defs : List (Nat × Nat)) (fuel cur m t : Nat)
+    (hi : m ∈ refs cur) (hd : (m, t) ∈ defs) :
+    Resolve.resolve defs (Resolve.visible refs (fuel + 1) cur) cur (.qual m t) = some (m, t) :=
+  Resolve.imported_types_resolve refs defs fuel cur m t hi hd
+
+/-- **a package sees exactly itself and what it imports, directly or through its imports** (every acyclic import graph, any import order;
+    `rank` witnesses acyclicity, which the loader has established) -/
+theorem a_package_sees_exactly_what_it_imports (refs : Nat → List Nat) (rank : Nat → Nat) (hr : ∀ n, ∀ i ∈ refs n, rank i < rank n)
+    (fuel n m : Nat) (hf : rank n < fuel) : m ∈ Resolve.visible refs fuel n ↔ (m = n ∨ Resolve.Reach refs n m) :=
+  Resolve.visible_iff refs rank hr fuel n m hf
+
+/-- so the types of every package reached through imports resolve under their namespace, however many packages lie in between -/
+theorem transitively_imported_types_are_usable (refs : Nat → List Nat) (rank : Nat → Nat) (hr : ∀ n, ∀ i ∈ refs n, rank i < rank n)
+    (defs : List (Nat × Nat)) (fuel cur m t : Nat) (hf : rank cur < fuel) (hi : Resolve.Reach refs cur m) (hd : (m, t) ∈ defs) :
+    Resolve.resolve defs (Resolve.visible refs fuel cur) cur (.qual m t) = some (m, t) := by
+  have hv := Resolve.visible_complete refs rank hr fuel cur m hf hi
+  simp [Resolve.resolve, hv, hd]
+
+/-- `GetAllChildReferences` returns nothing that is not imported -/
+theorem child_references_are_imports (refs : Nat → List Nat) (f n m : Nat) (h : m ∈ Resolve.allRefs refs f n []) : Resolve.Reach refs n m := by
+  rcases Resolve.allRefs_sound refs f n [] m h with h1 | h1
+  · cases h1
+  · exact h1
+
+/-- non-vacuity and the witness of the repaired defect: `B` (1) no longer resolves `C.T` in `App(0) → [B(1), C(2)]`; `App` does -/
+example :
+    let refs : Nat → List Nat := fun n => if n = 0 then [1, 2] else []
+    Resolve.resolve [(2, 7)] (Resolve.visible refs 5 1) 1 (.qual 2 7) = none ∧
+    Resolve.resolve [(2, 7)] (Resolve.visible refs 5 0) 0 (.qual 2 7) = some (2, 7) := by decide
 
 end Yardl.C18
